@@ -198,27 +198,9 @@ theorem readLeb_writeS (v : Int) (rest : List UInt8) :
 
 /-! ### canonical encodings: write ∘ read -/
 
-/-- canonical unsigned multi-byte body: continuation bytes ≥ 0x80, last byte in 1..0x7f -/
-def canonULoop : List UInt8 → Bool
-  | [] => false
-  | [b] => decide (0 < b.toNat ∧ b.toNat < 128)
-  | b :: b2 :: bs => decide (128 ≤ b.toNat) && canonULoop (b2 :: bs)
-
-/-- canonical unsigned LEB128: `00`, or a body without a redundant final zero byte -/
-def canonU (bs : List UInt8) : Bool := bs == [0] || canonULoop bs
-
 def uval : List UInt8 → Nat
   | [] => 0
   | b :: bs => b.toNat % 128 + 128 * uval bs
-
-/-- canonical signed LEB128: continuation bytes ≥ 0x80, last < 0x80, and the last byte is not a
-    redundant sign extension (`00` after a byte with bit 6 clear, `7f` after one with bit 6 set). -/
-def canonS : List UInt8 → Bool
-  | [] => false
-  | [b] => decide (b.toNat < 128)
-  | b :: b2 :: bs =>
-    decide (128 ≤ b.toNat) && canonS (b2 :: bs) &&
-      (!bs.isEmpty || (!(b2.toNat == 0 && b.toNat &&& 0x40 == 0) && !(b2.toNat == 0x7F && b.toNat &&& 0x40 != 0)))
 
 def ssval : List UInt8 → Int
   | [] => 0
@@ -366,5 +348,70 @@ theorem writeS_ssval : ∀ bs, canonS bs = true → writeS (ssval bs) = bs
         subst e5
         simp [e4, hbit] at hr
     simp only [hnot, if_false, ih, ofNat_toNat_sub b hb]
+
+/-! ### reading a canonical encoding, then writing the value, gives the bytes back -/
+
+theorem readLeb_at (sg : Bool) (data : List UInt8) (pos : Nat) :
+    readLeb sg data pos = readLeb sg (data.drop pos) 0 := by
+  unfold readLeb
+  simp
+
+theorem readLeb_canonU {data : List UInt8} {pos : Nat} {v : Int} {n : Nat}
+    (h : readLeb false data pos = some (v, n)) (hc : canonU ((data.drop pos).take n) = true) :
+    v = (uval ((data.drop pos).take n) : Int) ∧ writeU (uval ((data.drop pos).take n)) = (data.drop pos).take n
+      ∧ n ≤ (data.drop pos).length := by
+  have hw := writeU_uval _ hc
+  have hsplit : data.drop pos = (data.drop pos).take n ++ (data.drop pos).drop n :=
+    (List.take_append_drop n _).symm
+  rw [readLeb_at, hsplit, ← hw, readLeb_writeU] at h
+  simp only [Option.some.injEq, Prod.mk.injEq] at h
+  rw [hw] at h
+  refine ⟨h.1.symm, hw, ?_⟩
+  have := h.2
+  rw [List.length_take] at this
+  omega
+
+theorem readLeb_canonS {data : List UInt8} {pos : Nat} {v : Int} {n : Nat}
+    (h : readLeb true data pos = some (v, n)) (hc : canonS ((data.drop pos).take n) = true) :
+    writeS v = (data.drop pos).take n ∧ n ≤ (data.drop pos).length := by
+  have hw := writeS_ssval _ hc
+  have hsplit : data.drop pos = (data.drop pos).take n ++ (data.drop pos).drop n :=
+    (List.take_append_drop n _).symm
+  rw [readLeb_at, hsplit, ← hw, readLeb_writeS] at h
+  simp only [Option.some.injEq, Prod.mk.injEq] at h
+  rw [hw] at h
+  refine ⟨by rw [← h.1, hw], ?_⟩
+  have := h.2
+  rw [List.length_take] at this
+  omega
+
+/-- what `write` produces is canonical -/
+theorem canonULoop_writeULoop (v : Nat) : v ≠ 0 → canonULoop (writeULoop v) = true := by
+  induction v using Nat.strongRecOn with
+  | _ v ih =>
+    intro hv
+    rw [writeULoop]
+    simp only [hv, dite_false]
+    have hx : v % 128 < 128 := Nat.mod_lt _ (by omega)
+    by_cases h' : v / 128 = 0
+    · have hw : writeULoop 0 = [] := by rw [writeULoop]; simp
+      simp only [h', ne_eq, not_true_eq_false, if_false, hw, canonULoop, toNat_ofNat_lt _ (show v % 128 < 256 by omega),
+        decide_eq_true_eq]
+      omega
+    · have ih' := ih (v / 128) (by omega) h'
+      simp only [ne_eq, h', not_false_eq_true, if_true]
+      cases hw : writeULoop (v / 128) with
+      | nil => exact absurd hw (writeULoop_ne_nil _ h')
+      | cons b bs =>
+        rw [hw] at ih'
+        simp only [canonULoop, toNat_ofNat_lt _ (show v % 128 + 128 < 256 by omega), Bool.and_eq_true,
+          decide_eq_true_eq, ih', and_true]
+        omega
+
+theorem canonU_writeU (v : Nat) : canonU (writeU v) = true := by
+  unfold writeU canonU
+  by_cases hv : v = 0
+  · simp [hv]
+  · simp [hv, canonULoop_writeULoop v hv]
 
 end Amoco.Leb128
